@@ -181,7 +181,7 @@ class Rec:
                 ind = self.inds[copies[i]].copy()
                 ind.vector = list(vec)
             else:
-                ind = Individual(list(vec))
+                ind = (self.classes[i % len(self.classes)] if getattr(self, "classes", None) else Individual)(list(vec))
             if precisions:
                 ind.features["precision"] = precisions[i]
             self.inds.append(ind)
